@@ -82,3 +82,49 @@ def _short(msg):
     import re
     m = (msg or "")[:90]
     return re.sub(r"[0-9]+", "#", m)
+
+
+def repo_suite_workload(st, pid, kinds):
+    """Run the repository's own test-suite with vf.pytest_plugin and account the
+    monitor results of the given problem kinds.  Never a reason to fail the check if
+    pytest itself cannot run (counted as 'suite-not-run')."""
+    import json
+    import os
+    import subprocess
+    import sys
+    import tempfile
+    from .. import run
+    here = os.path.dirname(os.path.dirname(os.path.dirname(os.path.abspath(__file__))))
+    fd, out = tempfile.mkstemp(suffix=".json", dir=os.path.join(here, ".work")
+                               if os.path.isdir(os.path.join(here, ".work")) else None)
+    os.close(fd)
+    env = dict(os.environ, PYTHONPATH=here + os.pathsep + run.REPO, VF_PLUGIN_OUT=out,
+               PYTHONDONTWRITEBYTECODE="1")
+    try:
+        r = subprocess.run([sys.executable, "-m", "pytest", "-q", "-x", "-p", "no:cacheprovider",
+                            "-p", "vf.pytest_plugin", "tests"], cwd=run.REPO, env=env,
+                           capture_output=True, text=True, timeout=900)
+        j = json.load(open(out))
+    except Exception as e:  # noqa
+        st.bump("monitor", "suite-not-run")
+        return
+    finally:
+        try:
+            os.remove(out)
+        except OSError:
+            pass
+    st.bump("monitor", "suite-hifiber-objects", j.get("monitored", 0))
+    for rec in j.get("records", []):
+        st.evaluations += 1
+        for p in rec.get("problems", []):
+            if p.get("kind") not in kinds:
+                continue
+            kfid = p.get("known_finding")
+            st.violations.append({"property": pid, "known_finding": kfid,
+                                  "summary": "repo test-suite workload: %s in the program for `%s` "
+                                             "(%s mode): %s" % (p.get("kind"), rec.get("exprs"),
+                                                                rec.get("mode"),
+                                                                {k: v for k, v in p.items()
+                                                                 if k not in ("kind",)}),
+                                  "problems": [p], "case": {"kind": "repo-test-suite",
+                                                            "exprs": rec.get("exprs")}})
